@@ -1081,6 +1081,7 @@ impl Dx9PixelFormat {
         if options.permissive
             && rgb_bit_count == 0
             && four_cc != FourCC::NONE
+            && four_cc != FourCC::DX10
             && !flags.contains(PixelFormatFlags::FOURCC)
         {
             // Some old DDS files from Unreal Tournament 2004 have no flags set,
